@@ -70,21 +70,21 @@ type VMEvent struct {
 	Kind string // arg const pop peek push scope.get scope.open scope.close scopeload scopestore jump panic call loop memadd limitcheck
 	Node ast.Node
 	// value provenance
-	ID      int      // index in the path's event list
-	Expr    ast.Expr // push: pushed expression; call: the call
-	Callee  string   // call: qualified callee name
-	Fn      *types.Func
-	Args    []*Origin // call: origin of every argument
-	Assert  types.Type // type asserted on this value where it is used (pop/const/peek)
-	Dir     string   // jump: fwd/back
-	CondOn  *Origin  // jump: origin of the condition (nil = unconditional)
-	CondNeg bool     // jump taken when the condition value is false
-	Count   string   // loop: iteration count expression ("call.Size", "size")
+	ID          int      // index in the path's event list
+	Expr        ast.Expr // push: pushed expression; call: the call
+	Callee      string   // call: qualified callee name
+	Fn          *types.Func
+	Args        []*Origin  // call: origin of every argument
+	Assert      types.Type // type asserted on this value where it is used (pop/const/peek)
+	Dir         string     // jump: fwd/back
+	CondOn      *Origin    // jump: origin of the condition (nil = unconditional)
+	CondNeg     bool       // jump taken when the condition value is false
+	Count       string     // loop: iteration count expression ("call.Size", "size")
 	CountOrigin *Origin
-	Body    [][]VMEvent // loop: events of each non-panicking body path
-	Key     *Origin  // scope load/store: key
-	Val     *Origin
-	Amount  ast.Expr // memadd
+	Body        [][]VMEvent // loop: events of each non-panicking body path
+	Key         *Origin     // scope load/store: key
+	Val         *Origin
+	Amount      ast.Expr // memadd
 }
 
 // Origin says where a value comes from.
@@ -134,18 +134,18 @@ type Handler struct {
 }
 
 type VMModel struct {
-	Prog     *core.Program
-	Run      *ast.FuncDecl
-	Switch   *ast.SwitchStmt
-	Opcodes  []*Opcode
-	ByName   map[string]*Opcode
-	Handlers map[string]*Handler
+	Prog                      *core.Program
+	Run                       *ast.FuncDecl
+	Switch                    *ast.SwitchStmt
+	Opcodes                   []*Opcode
+	ByName                    map[string]*Opcode
+	Handlers                  map[string]*Handler
 	HasDefault, DefaultPanics bool
-	Prims    map[*types.Func]string // *VM methods recognised as primitives: push pop peek arg const scope
-	VMType   *types.Named
-	Fields   map[string]*types.Var
-	Problems []string
-	EnvParam, ProgParam types.Object
+	Prims                     map[*types.Func]string // *VM methods recognised as primitives: push pop peek arg const scope
+	VMType                    *types.Named
+	Fields                    map[string]*types.Var
+	Problems                  []string
+	EnvParam, ProgParam       types.Object
 }
 
 // stack/bytecode/... field roles of the VM struct, found by type and use.
